@@ -41,3 +41,17 @@ Section Vec.
   Definition vsum (a : vec) : T N := fold_left add a (ofZ 0).
   Definition vdot (a b : vec) : T N := vsum (vmul a b).
 End Vec.
+
+(* Vector operations used by the integrator programs.  The executable instance is lists of
+   numbers; the theorem instances are arbitrary modules (e.g. functions from an index type). *)
+Record VecOps (N : NumOps) := mkVecOps {
+  VV : Type;
+  vo_add : VV -> VV -> VV;
+  vo_sub : VV -> VV -> VV;
+  vo_scale : T N -> VV -> VV;
+  vo_neg : VV -> VV
+}.
+Arguments VV {N}. Arguments vo_add {N}. Arguments vo_sub {N}. Arguments vo_scale {N}. Arguments vo_neg {N}.
+
+Definition ListVec (N : NumOps) : VecOps N :=
+  {| VV := list (T N); vo_add := @vadd N; vo_sub := @vsub N; vo_scale := @vscale N; vo_neg := @vneg N |}.
